@@ -1641,7 +1641,27 @@ static void do_source_file(const char *filename_in,
 
    if (did_open)
    {
-      fclose(pfout);
+      // nothing may replace the source unless every byte reached the new file
+      bool write_failed = (ferror(pfout) != 0);
+      int  write_errno  = errno;
+
+      if (fclose(pfout) != 0)
+      {
+         write_failed = true;
+         write_errno  = errno;
+      }
+
+      if (write_failed)
+      {
+         LOG_FMT(LERR, "%s: Failed to write %s: %s (%d)\n",
+                 __func__, filename_tmp.c_str(), strerror(write_errno), write_errno);
+
+         if (filename_tmp != filename_out)
+         {
+            UNUSED(unlink(filename_tmp.c_str()));
+         }
+         exit(EX_IOERR);
+      }
 
       if (need_backup)
       {
